@@ -65,7 +65,9 @@ finally:
         open(ev, 'w').write(ev_backup)
 lines = [l for l in out.splitlines() if l.startswith('VIOLATION') or l.startswith('  ')]
 meta.setdefault('checks', {})[tier] = {'exit': rc, 'detected': rc == 1 and 'VIOLATION' in out, 'wall_s': round(time.time() - t, 1),
-                                        'first_lines': lines[:4], 'no_input': 'no-failing-input-found' in out}
+                                        'first_lines': lines[:4], 'no_input': 'no-failing-input-found' in out,
+                                        # several violations may be reported in one run: is there one that carries an input?
+                                        'with_input': any(l.startswith('VIOLATION') and 'no-failing-input-found' not in l for l in out.splitlines())}
 json.dump(meta, open(os.path.join(dst, 'meta.json'), 'w'), indent=1)
 print('check exit', rc, 'detected' if meta['checks'][tier]['detected'] else 'MISSED', '(%.0fs)' % (time.time() - t))
 print('\n'.join(lines[:4]))
